@@ -5,7 +5,6 @@ package opgen
 import (
 	"encoding/json"
 	"fmt"
-	"slices"
 	"sort"
 	"strconv"
 	"strings"
@@ -469,10 +468,11 @@ func (g *gen) selSetL(def *ast.Definition, depth int, label string, inAbstractFr
 					ctxName = def.Name
 				}
 				if prev := lv.composite[f.Name]; len(prev) > 0 && !g.allow("composite-key-in-multiple-fragments") {
-					if ctxName == "*" || slices.Contains(prev, "*") || slices.Contains(prev, ctxName) || g.o.NoMirrored {
-						continue
-					}
-					g.feat["composite-key-in-disjoint-fragments"] = true
+					// also in fragments on different object types: with different sub-selections a
+					// fetch planned below one branch runs for objects of the other (recorded finding
+					// C01-composite-key-in-multiple-fragments, visible through err_ fields); only the
+					// mirrored form (equal sub-selections, see mirrored) is generated
+					continue
 				}
 				lv.composite[f.Name] = append(lv.composite[f.Name], ctxName)
 			}
